@@ -293,16 +293,23 @@ theorem parseDep_spec : ∀ (d : Dep) (m : PMap), (keys m).Nodup →
   | .mk name version commit deps, m, h => by
     obtain ⟨nested, hn, hnn, hnl⟩ := parseDeps_spec deps [] (by simp [keys])
     have he := depEntry_entryOf name version commit
-    refine ⟨set (insertAll nested m) (entryOf name version commit).1 (entryOf name version commit).2, ?_, ?_, fun k => ?_⟩
-    · simp [parseDep, hn, he, insertAll]
-    · exact nodup_set _ _ _ (nodup_insertAll nested m h)
-    · rw [lookup_set, lookup_insertAll, lastOf_self nested hnn, hnl k, flatDep, lastOf_append]
-      simp only [lastOf, lookup_nil]
-      by_cases hk : k = (entryOf name version commit).1
-      · subst hk; simp
-      · have : ¬ (entryOf name version commit).1 = k := fun e => hk e.symm
-        simp only [hk, this, if_false]
+    by_cases hnm : (entryOf name version commit).2.name.isEmpty = true
+    · -- fix 4dbc0083: no write for an entry without a name
+      refine ⟨insertAll nested m, ?_, nodup_insertAll nested m h, fun k => ?_⟩
+      · simp [parseDep, hn, he, insertAll, hnm]
+      · rw [lookup_insertAll, lastOf_self nested hnn, hnl k, flatDep, lastOf_append]
+        simp only [hnm, if_true, lastOf, lookup_nil]
         cases lastOf (flatDeps deps) k <;> rfl
+    · refine ⟨set (insertAll nested m) (entryOf name version commit).1 (entryOf name version commit).2, ?_, ?_, fun k => ?_⟩
+      · simp [parseDep, hn, he, insertAll, hnm]
+      · exact nodup_set _ _ _ (nodup_insertAll nested m h)
+      · rw [lookup_set, lookup_insertAll, lastOf_self nested hnn, hnl k, flatDep, lastOf_append]
+        simp only [hnm, Bool.false_eq_true, if_false, lastOf, lookup_nil]
+        by_cases hk : k = (entryOf name version commit).1
+        · subst hk; simp
+        · have : ¬ (entryOf name version commit).1 = k := fun e => hk e.symm
+          simp only [hk, this, if_false]
+          cases lastOf (flatDeps deps) k <;> rfl
 end
 
 theorem parsePackages_eq (ps : List LPkg) : parsePackages ps = insertAll (pkgWrites ps) [] := by
@@ -478,22 +485,22 @@ namespace Pipfile
 
 
 theorem pinned_form (name v : Str) :
-    (pinned (name, v) = none ∧ (v.isEmpty || (!hasPrefix "==".toList v || decide (v.length < 3))) = true) ∨
+    (pinnedV (name, v) = none ∧ (v.isEmpty || (!hasPrefix "==".toList v || decide (v.length < 3))) = true) ∨
     (∃ c rest, v = '=' :: '=' :: c :: rest) := by
   rcases v with _ | ⟨a, _ | ⟨b, _ | ⟨c, rest⟩⟩⟩
   · left; exact ⟨rfl, rfl⟩
   · left; refine ⟨?_, by simp⟩
-    unfold pinned; split
+    unfold pinnedV; split
     · rename_i h; simp at h
     · rfl
   · left; refine ⟨?_, by simp⟩
-    unfold pinned; split
+    unfold pinnedV; split
     · rename_i h; simp at h
     · rfl
   · by_cases hp : a = '=' ∧ b = '='
     · right; obtain ⟨rfl, rfl⟩ := hp; exact ⟨c, rest, rfl⟩
     · left; constructor
-      · unfold pinned; split
+      · unfold pinnedV; split
         · rename_i h; simp at h; exact absurd ⟨h.1, h.2.1⟩ hp
         · rfl
       · have : hasPrefix "==".toList (a :: b :: c :: rest) = false := by
@@ -510,14 +517,20 @@ theorem addPkgs_eq : ∀ (es : List (Str × Str)) (details : List (Str × NV)),
   | cons e es ih =>
     intro d
     obtain ⟨name, v⟩ := e
+    by_cases hname : name.isEmpty = true
+    · -- fix ed6d851c: an entry under an empty key is skipped
+      have h3 : pinnedKV (name, v) = none := by simp [pinnedKV, pinned, hname]
+      have hstep : addPkgs d ((name, v) :: es) = addPkgs d es := by simp [addPkgs, hname]
+      rw [hstep, ih, List.filterMap_cons, h3]
     rcases pinned_form name v with ⟨hn, hg⟩ | ⟨c, rest, rfl⟩
-    · have h3 : pinnedKV (name, v) = none := by simp [pinnedKV, hn]
+    · have h3 : pinnedKV (name, v) = none := by simp [pinnedKV, pinned, hn]
       have hstep : addPkgs d ((name, v) :: es) = addPkgs d es := by
         by_cases he : v.isEmpty = true
         · simp [addPkgs, he]
         · have hg' : (!hasPrefix "==".toList v || decide (v.length < 3)) = true := by
             cases hv : v.isEmpty <;> simp_all
-          simp only [addPkgs, he, Bool.false_eq_true, if_false, hg', if_true]
+          have hname' : name.isEmpty = false := by simpa using hname
+          simp only [addPkgs, he, hname', Bool.or_self, Bool.false_eq_true, if_false, hg', if_true]
       rw [hstep, ih, List.filterMap_cons, h3]
     · have h1 : (!hasPrefix "==".toList ('=' :: '=' :: c :: rest) || decide (('=' :: '=' :: c :: rest).length < 3)) = false := by
         have : "==".toList = ['=', '='] := rfl
@@ -525,8 +538,9 @@ theorem addPkgs_eq : ∀ (es : List (Str × Str)) (details : List (Str × NV)),
       have h2 : goSlice ('=' :: '=' :: c :: rest) 2 ('=' :: '=' :: c :: rest).length = some (c :: rest) := by
         simp [goSlice]
       have h3 : pinnedKV (name, '=' :: '=' :: c :: rest) = some (name ++ '@' :: (c :: rest), ⟨name, c :: rest⟩) := by
-        simp [pinnedKV, pinned, keyNV]
-      simp only [addPkgs, List.isEmpty_cons, Bool.false_eq_true, if_false, h1, h2,
+        simp [pinnedKV, pinned, pinnedV, keyNV, hname]
+      have hname' : name.isEmpty = false := by simpa using hname
+      simp only [addPkgs, hname', Bool.or_self, List.isEmpty_cons, Bool.false_eq_true, if_false, h1, h2,
         List.filterMap_cons, h3, insertFirst, List.foldl_cons, addFirst]
       split
       · exact ih d
